@@ -877,8 +877,8 @@ class ReportProp(SimpleProp):
         mops = []
         for op, g in zip(ops, go):
             d = core.parse_kv(g)
-            if "OWN.s" in d and "OWN.sv" in d:
-                mops.append("R3W %s %s %s" % (op[3:], d["OWN.s"], d["OWN.sv"]))
+            if "OWN.s" in d and "OWN.sv" in d and "OWN.r" in d:
+                mops.append("R3W %s %s %s %s" % (op[3:], d["OWN.s"], d["OWN.sv"], d["OWN.r"]))
             else:
                 mops.append(op)
         return core.run_sharded(core.MODEL, mops)
